@@ -108,7 +108,7 @@ fn entry_name(e: &str) -> String {
     }
 }
 
-pub fn replay(fctx: &fuzz::Ctx, lines: &[Value], seed: u64, rep: &mut Report) {
+pub fn replay(fctx: &fuzz::Ctx, lines: &[Value], seed: u64, rep: &mut Report, trace: &mut Vec<Value>) {
     let mut rng = StdRng::seed_from_u64(seed);
     for b in lines {
         let cfg = &b["cfg"];
@@ -118,6 +118,10 @@ pub fn replay(fctx: &fuzz::Ctx, lines: &[Value], seed: u64, rep: &mut Report) {
         let want_accept = b["accept"].as_bool().unwrap();
         let path = cfg["path"].as_str().unwrap();
         let built = construct(cfg);
+        trace.push(json!({"ev":"Build","cfg":cfg}));
+        if let Ok(x) = &built {
+            trace.push(json!({"ev":"Verdict","accepted":x.is_some()}));
+        }
         let t = match built {
             Err(msg) => {
                 rep.violation("C18", &format!("settings via {path}: {}", crate::valve::first_line(&msg)), json!({"kind":"settings","cfg":cfg,"detail":msg}));
@@ -173,6 +177,7 @@ pub fn replay(fctx: &fuzz::Ctx, lines: &[Value], seed: u64, rep: &mut Report) {
                 c2["retries"] = Value::Null;
                 let rec = call_with_timeouts(&name, &c2, &script, t);
                 rep.evaluations += 1;
+                trace.push(json!({"ev":"Used","entry":name,"server":what,"returned": !matches!(rec.outcome, Outcome::Panic { .. } | Outcome::Hang)}));
                 if let Outcome::Panic { msg } = &rec.outcome {
                     rep.violation(
                         "C18",
